@@ -133,10 +133,13 @@ class Ctx:
         cmd = ["java", "-XX:+UseParallelGC", "-cp", TLA_CP, "tlc2.TLC", "-workers", str(workers), "-metadir", meta,
                "-config", cfgpath] + (extra or []) + [os.path.join(d, module + ".tla")]
         self.checker_cmds.append("tlc -workers %s -config %s %s.tla" % (workers, os.path.basename(cfgpath), module))
+        t1 = time.time()
         try:
             r = subprocess.run(cmd, cwd=d, env=e, capture_output=True, text=True, timeout=timeout)
         except subprocess.TimeoutExpired:
             raise Undecided("TLC timed out on %s/%s" % (module, cfg))
+        if os.environ.get("VERIF_DEBUG"):
+            print("  [tlc %s %s: %.1fs]" % (module, tag, time.time() - t1), file=sys.stderr)
         out = r.stdout + r.stderr
         shutil.rmtree(meta, ignore_errors=True)
         m = re.search(r"(\d+) states generated, (\d+) distinct states found", out)
@@ -183,7 +186,7 @@ class Ctx:
         return v
 
     def validate_many(self, module, files, **kw):
-        with concurrent.futures.ThreadPoolExecutor(max_workers=min(NCPU, 12)) as ex:
+        with concurrent.futures.ThreadPoolExecutor(max_workers=NCPU) as ex:
             futs = [ex.submit(self.validate, module, f, **kw) for f in files]
             return [f.result() for f in futs]
 
@@ -237,16 +240,24 @@ class Ctx:
             if len(self.drifts) <= 10:
                 print("SPEC-DRIFT: property=%s %s" % (self.pid, what))
 
-    def classify(self, verdicts, describe):
-        """Split trace-validation verdict lines into property violations, drifts, harness problems.
-        describe(l_index, shardfile) -> replay object."""
-        for v, f in verdicts:
+    def absorb(self, verdicts, files, describe=None):
+        """Route trace-validation verdict lines: 'P:<pid>:what' contradicts property <pid> (a VIOLATION only for this
+        check's own property; other properties' findings are their checks' business and are noted), 'S:what' is
+        implementation-shape drift, 'H:what' is a harness-level inconsistency (undecided)."""
+        for v, f in zip(verdicts, files):
             for b in v.get("bad", []):
                 why = b["why"]
-                if why.startswith("prop:"):
-                    self.violation(why[5:], describe(b["l"], f, why))
-                elif why.startswith("shape:"):
-                    self.drift("%s (e.g. line %d of %s)" % (why[6:], b["l"], os.path.basename(f)))
+                if why.startswith("P:"):
+                    _, pid, what = why.split(":", 2)
+                    if pid == self.pid:
+                        rep = describe(b["l"], f, why) if describe else dict(file=os.path.basename(f), line=b["l"], event=nth_line(f, b["l"]))
+                        self.violation(what, rep)
+                    else:
+                        note = "also observed (decided by %s's own check): %s" % (pid, what)
+                        if note not in self.notes and len(self.notes) < 20:
+                            self.notes.append(note)
+                elif why.startswith("S:"):
+                    self.drift("%s (e.g. line %d of %s)" % (why[2:], b["l"], os.path.basename(f)))
                 else:
                     raise Undecided("harness-level inconsistency %s at line %d of %s" % (why, b["l"], f))
 
